@@ -11,7 +11,7 @@ A_PLAN = "A-PLAN: the executor contracts assume a well-formed plan (symmetric du
 
 PROPS = {
     "C01": {"rt": ["rt_planner", "rt_executor"], "level": "proof", "assumes": [A_PY, A_OS, A_PLAN]},
-    "C02": {"rt": ["rt_planner", "rt_executor"], "level": "other", "assumes": [A_PY, A_PLAN],
+    "C02": {"rt": ["rt_planner", "rt_executor", "rt_deps"], "level": "other", "assumes": [A_PY, A_PLAN],
             "explanation": "two parts: (1) executor side decided deductively by pyvc (obligations/discharged below: each ready operation is dequeued and started at most once, phases monotone, queues duplicate-free); "
                            "(2) planner side (each task lowered once; executed set == needed closure minus cached; cached/executed disjoint) decided only by the bounded stand-in rt_planner: exhaustive enumeration on the real planner "
                            "of all DAGs within the scope listed under bounded_checks. Part (2) is bounded, not proved, hence level 'other' rather than 'proof'."},
@@ -26,11 +26,11 @@ PROPS = {
     "C11": {"rt": ["rt_traverse", "rt_archive"], "level": "proof", "assumes": [A_PY, A_SQL, A_LIB]},
     "C12": {"rt": ["rt_archive"], "level": "proof", "assumes": [A_PY, A_SQL, A_LIB]},
     "C13": {"rt": ["rt_fs", "rt_identifiers"], "level": "proof", "assumes": [A_PY, A_LIB]},
-    "C14": {"rt": ["rt_taskindex"], "level": "proof", "assumes": [A_PY]},
+    "C14": {"rt": ["rt_taskindex", "rt_deps"], "level": "proof", "assumes": [A_PY]},
     "C15": {"rt": ["rt_parsing"], "level": "proof", "assumes": [A_PY, A_LIB]},
     "C16": {"rt": ["rt_abort"], "level": "proof", "assumes": [A_PY, A_OS, A_SIG]},
     "C17": {"rt": ["rt_fs"], "level": "proof", "assumes": [A_PY, A_LIB]},
     "C18": {"rt": ["rt_fs", "rt_planner"], "level": "proof", "assumes": [A_PY, A_LIB]},
     "C19": {"rt": ["rt_parsing"], "level": "proof", "assumes": [A_PY]},
-    "C20": {"rt": ["rt_identifiers"], "level": "proof", "assumes": [A_PY, A_LIB]},
+    "C20": {"rt": ["rt_identifiers", "rt_deps"], "level": "proof", "assumes": [A_PY, A_LIB]},
 }
